@@ -23,7 +23,9 @@ PROP = {
     "keys": ["nesting-deeper-than-limit", "dispatch-depth-not-restored", "regular-file-not-deferrable",
              "operation-deferred-at-limit-never-completed", "completed-inline-at-the-dispatch-limit",
              "mcast.write-wrong-destination", "mcast.write-lost", "mcast.write-duplicated", "mcast.write-length", "mcast.read-stale-buffer",
-             "mcast.read-not-completed", "mcast.read-bytes", "mcast.panic"],
+             "mcast.read-not-completed", "mcast.read-bytes", "mcast.panic",
+             # a panic inside the poller's dispatch loop: what was deferred to it (at the limit or on would-block) never completes
+             "panic"],
     "secondary_keys": ["nesting-deeper-than-limit", "operation-deferred-at-limit-never-completed", "completed-inline-at-the-dispatch-limit"],
     "rule": LOOP_RULE,
     "trusted_base": LOOP_TB,
